@@ -15,7 +15,23 @@ import (
 
 // TileSpec is the `tile` field of a case.
 type TileSpec struct {
-	Pos []int `json:"pos"` // 0-based input positions that are repeated along axis 0
+	Pos   []int `json:"pos"`   // 0-based input positions that are repeated
+	Axes  []int `json:"axes"`  // the axis along which each of them is repeated (default 0)
+	OAxes []int `json:"oaxes"` // the axis along which each result is expected to be repeated (default 0)
+}
+
+func (t *TileSpec) axisOf(i int) int {
+	if i < len(t.Axes) {
+		return t.Axes[i]
+	}
+	return 0
+}
+
+func (t *TileSpec) oaxisOf(j int) int {
+	if j < len(t.OAxes) {
+		return t.OAxes[j]
+	}
+	return 0
 }
 
 // operators whose cost per row is high: a smaller target keeps the mode affordable
@@ -46,23 +62,30 @@ func tileFactor(c *Case) int {
 	return k
 }
 
-func tileTensor(t tensor.Tensor, k int) (tensor.Tensor, error) {
+func tileTensor(t tensor.Tensor, axis, k int) (tensor.Tensor, error) {
 	src := reflect.ValueOf(t.Data())
-	if src.Kind() != reflect.Slice {
-		return nil, fmt.Errorf("cannot repeat a scalar")
+	if src.Kind() != reflect.Slice || axis >= len(t.Shape()) {
+		return nil, fmt.Errorf("cannot repeat a tensor of shape %v along axis %d", t.Shape(), axis)
 	}
 	n := src.Len()
+	block := 1
+	for _, d := range t.Shape()[axis:] {
+		block *= d
+	}
+	outer := n / block
 	dst := reflect.MakeSlice(src.Type(), n*k, n*k)
-	for j := 0; j < k; j++ {
-		reflect.Copy(dst.Slice(j*n, (j+1)*n), src)
+	for o := 0; o < outer; o++ {
+		for j := 0; j < k; j++ {
+			reflect.Copy(dst.Slice((o*k+j)*block, (o*k+j+1)*block), src.Slice(o*block, (o+1)*block))
+		}
 	}
 	shape := append([]int{}, t.Shape()...)
-	shape[0] *= k
+	shape[axis] *= k
 	return tensor.New(tensor.WithShape(shape...), tensor.WithBacking(dst.Interface())), nil
 }
 
 // compareTiled checks got against want repeated k times along axis 0.
-func compareTiled(want AbsTensor, got tensor.Tensor, k int, mode string) (bool, string) {
+func compareTiled(want AbsTensor, got tensor.Tensor, axis, k int, mode string) (bool, string) {
 	if got == nil {
 		return false, "nil tensor"
 	}
@@ -70,10 +93,14 @@ func compareTiled(want AbsTensor, got tensor.Tensor, k int, mode string) (bool, 
 		return false, fmt.Sprintf("dtype %s, expected %s", dtName(got.Dtype()), want.Dt)
 	}
 	ws := append([]int{}, want.Shape...)
-	if len(ws) == 0 {
-		return false, "harness: the expected result of a tiled case has rank 0"
+	if len(ws) <= axis {
+		return false, "harness: the expected result of a tiled case has no axis " + fmt.Sprint(axis)
 	}
-	ws[0] *= k
+	ws[axis] *= k
+	block := 1
+	for _, d := range want.Shape[axis:] {
+		block *= d
+	}
 	gs := got.Shape()
 	if len(gs) != len(ws) {
 		return false, fmt.Sprintf("shape %v, expected %v", []int(gs), ws)
@@ -100,8 +127,11 @@ func compareTiled(want AbsTensor, got tensor.Tensor, k int, mode string) (bool, 
 		conc[i] = w
 	}
 	for i, v := range els {
-		if !sameValue(v, conc[i%n], mode) {
-			return false, fmt.Sprintf("element %d of %d is %v, expected %v (row block %d of %d)", i, len(els), v, conc[i%n], i/n+1, k)
+		// element i of the repeated tensor: outer block o, repetition j, offset r inside the block
+		o, r := i/(block*k), (i%(block*k))%block
+		w := conc[o*block+r]
+		if !sameValue(v, w, mode) {
+			return false, fmt.Sprintf("element %d of %d is %v, expected %v (repetition %d of %d)", i, len(els), v, w, (i%(block*k))/block+1, k)
 		}
 	}
 	return true, ""
@@ -123,11 +153,11 @@ func execTiled(c *Case) *ModeResult {
 	}
 	inputs := append([]tensor.Tensor{}, base...)
 	rows := 0
-	for _, p := range c.Tile.Pos {
+	for i, p := range c.Tile.Pos {
 		if p < 0 || p >= len(inputs) || inputs[p] == nil {
 			return &ModeResult{mode, "infra:bad tile position", ""}
 		}
-		t, err := tileTensor(inputs[p], k)
+		t, err := tileTensor(inputs[p], c.Tile.axisOf(i), k)
 		if err != nil {
 			return &ModeResult{mode, "infra:" + err.Error(), ""}
 		}
@@ -189,8 +219,8 @@ func execTiled(c *Case) *ModeResult {
 		return &ModeResult{mode, fmt.Sprintf("violation:%d results, expected %d", len(results), len(c.Allowed.Value)), ""}
 	}
 	for j, want := range c.Allowed.Value {
-		if ok, why := compareTiled(want, results[j], k, cmp); !ok {
-			return &ModeResult{mode, fmt.Sprintf("violation:operands repeated %d times along axis 0 (%d elements): output %d: %s", k, rows, j, why), ""}
+		if ok, why := compareTiled(want, results[j], c.Tile.oaxisOf(j), k, cmp); !ok {
+			return &ModeResult{mode, fmt.Sprintf("violation:operands repeated %d times (%d elements): output %d: %s", k, rows, j, why), ""}
 		}
 	}
 	return &ModeResult{mode, "pass", ""}
